@@ -182,6 +182,8 @@ def plan(tier, seed):
     # two distinct countries with the same name and short name on one network
     p.append(("totals", dict(skeleton="T2c", n=2, drivers=["intens"], args={"same_names": True})))
     p.append(("totals", dict(skeleton="TX", n=2, drivers=["intens"], args={"same_names": True})))
+    # a journey that visits the same step object twice
+    p.append(("totals", dict(skeleton="T4", n=2, drivers=["job"], args={"repeat": True})))
     p.append(("totals", dict(skeleton="TH", n=5, drivers=["job"], args={"shared_journey": False})))
     # boundary values: jobs that store / transfer / need exactly nothing, storages with an initial volume and idle power
     zero = {"job2.data_stored": 0, "st2.base_storage_need": 2, "st2.idle_power": 5, "st.base_storage_need": 1, "job.data_transferred": 0}
